@@ -212,15 +212,17 @@ PROPERTIES.update({
     },
     "C29": {
         "level": "proof",
-        "verus": [("u16_autocommit", ["ensure_transaction_open", "ensure_transaction_closed", "commit_with", "empty_change", "get_heads", "isolate", "integrate"])],
+        "verus": [("u16_autocommit", ["ensure_transaction_open", "ensure_transaction_closed", "commit_with", "empty_change", "get_heads", "isolate", "integrate", "get_scope", "hydrate"])],
         "kani": [],
-        "not_under_contract": ["reads inside an isolated scope (clock-scoped reads over the op set: Automerge::get_at / keys_at / ...; first clause)", "Automerge::transaction_at / isolate_actor and TransactionInner (assumed: transaction_args(heads) computes deps = heads; "
+        "not_under_contract": ["what a clock-scoped read returns (the op set under a clock: Automerge::*_for(obj, clock); first clause); the other ~40 ReadDoc methods of AutoCommit (each a one-line `self.doc.x_for(.., self.get_scope(h))`) and all of Transaction's", "Automerge::transaction_at / isolate_actor and TransactionInner (assumed: transaction_args(heads) computes deps = heads; "
                                "insert_local_op's reset_top under scope)", "what integrate merges (third clause: the document after integrate equals the merge of the isolated changes)", "Transaction-level (non-AutoCommit) API"],
         "trusted": ["Automerge::transaction_args(heads) scopes the transaction to exactly `heads` (assumed contract; proved for its deps computation against the change graph accessors in U10)", "TransactionInner::commit returns the hash of the change it made, if any"],
         "assumptions": ["C29 is claimed for the AutoCommit-level bookkeeping of its second clause only: which heads an isolated transaction is scoped to and how the isolated view moves; the read semantics and the merge on integrate are not_under_contract"],
         "explanation": "Verus proves on the real AutoCommit methods, with a representation invariant over ghost state: after isolate(h) the document is isolated at exactly h, for every h; an open transaction is always scoped to the CURRENT "
                        "isolation heads (it is opened with transaction_args(isolation) and every method that could change the heads flushes it first); committing inside isolation moves the isolated view to exactly the change just "
-                       "committed (so the isolated chain is linear and later transactions depend on it alone) and never leaves or enters isolation; get_heads reports the isolation heads while isolated; integrate ends isolation.",
+                       "committed (so the isolated chain is linear and later transactions depend on it alone) and never leaves or enters isolation; get_heads reports the isolation heads while isolated; integrate ends isolation. "
+                       "On the real AutoCommit::get_scope: the clock a read is scoped to is a function of (heads argument, isolation, open transaction) -- while isolated it is never 'unscoped' -- and "
+                       "ReadDoc::hydrate of AutoCommit reads through exactly that scope (D30).",
     },
     "C10": {
         "level": "proof",
